@@ -131,6 +131,7 @@ func Load(dir string, allSyntax bool) *World {
 			w.repoFuncs = append(w.repoFuncs, fn)
 		}
 	}
+	currentWorld = w
 	sort.Slice(w.repoFuncs, func(i, j int) bool {
 		a, b := w.repoFuncs[i], w.repoFuncs[j]
 		if a.Pos() != b.Pos() {
